@@ -21,6 +21,7 @@ import Bourse.Spec.Audit
 import Bourse.Spec.Ref
 import Driver.Parse
 import Driver.EnvDrive
+import Driver.ShapeDrive
 import Std.Data.HashMap
 import Std.Data.HashSet
 
@@ -258,6 +259,15 @@ partial def loop (inp out : IO.FS.Stream) (st : St) : IO St := do
       loop inp out { st with ehist := some eh', stats := stats, nOps := st.nOps + (if tags.isEmpty then 0 else 1),
                              nK := st.nK + nK, nA := st.nA + nA }
     | none => loop inp out (← handleObs st rest out)
+  | "S" :: rest =>
+    let st := finishHist st
+    let (lines, tags) := handleShape rest
+    for l in lines do emit out l
+    let mut stats := st.stats
+    for t in tags do stats := bump stats t
+    loop inp out { st with stats := stats, nHist := st.nHist + 1, nOps := st.nOps + 1, nNontrivial := st.nNontrivial + 1,
+                           nK := st.nK + (lines.filter (·.startsWith "K ")).length,
+                           nA := st.nA + (lines.filter (·.startsWith "A ")).length }
   | [] => loop inp out st
   | _ => emit out s!"BAD line {line}"; loop inp out st
 
